@@ -54,7 +54,7 @@ func ss(s string) *string { return &s }
 var intLeaves = []Expr{
 	&Ref{"NI"}, &Ref{"NI8"}, &Ref{"NI16"}, &Ref{"NI32"}, &Ref{"NI64"},
 	&Ref{"H.I"}, &Ref{"H.I8"}, &Ref{"H.I16"}, &Ref{"H.I32"}, &Ref{"H.I64"}, &Ref{"H.In.X"}, &Ref{"H.In.W"}, &Ref{"H.Pn.X"}, &Ref{"H.Pn.W"},
-	&Ref{"V.I8"}, &Ref{"V.I64"}, &Ref{"V.In.X"},
+	&Ref{"V.I8"}, &Ref{"V.I64"}, &Ref{"V.In.X"}, &Ref{"H.EI"}, &Ref{"H.In.DX"}, &Ref{"H.Pn.DX"}, &Ref{"V.EI"}, &Ref{"V.In.DX"},
 	&Elem{Cont: "M64", KeyStr: ss("a")}, &Elem{Cont: "M64", KeyStr: ss("missing")}, &Elem{Cont: "PS", KeyInt: is(1)}, &Elem{Cont: "VS", KeyInt: is(0)},
 	&Elem{Cont: "MIK", KeyInt: is(1)}, &Elem{Cont: "MIK", KeyInt: is(-7)}, &Elem{Cont: "H.SL", KeyInt: is(0)}, &Elem{Cont: "H.MS", KeyStr: ss("b")},
 	&Elem{Cont: "PA", KeyInt: is(4)}, &Elem{Cont: "PM", KeyStr: ss("a")}, &Elem{Cont: "VA", KeyInt: is(0)}, &Elem{Cont: "MKU", KeyInt: is(9)},
@@ -65,15 +65,16 @@ var intLeaves = []Expr{
 }
 var uintLeaves = []Expr{
 	&Ref{"NU"}, &Ref{"NU8"}, &Ref{"NU16"}, &Ref{"NU32"}, &Ref{"NU64"},
-	&Ref{"H.U"}, &Ref{"H.U8"}, &Ref{"H.U16"}, &Ref{"H.U32"}, &Ref{"H.U64"}, &Ref{"H.In.Y"}, &Ref{"H.Pn.Y"}, &Ref{"V.U64"}, &Ref{"V.U8"},
+	&Ref{"H.U"}, &Ref{"H.U8"}, &Ref{"H.U16"}, &Ref{"H.U32"}, &Ref{"H.U64"}, &Ref{"H.In.Y"}, &Ref{"H.Pn.Y"}, &Ref{"V.U64"}, &Ref{"V.U8"}, &Ref{"H.EU"},
 	&Elem{Cont: "MU8", KeyStr: ss("a")}, &Elem{Cont: "MU8", KeyStr: ss("nokey")}, &Elem{Cont: "PSU", KeyInt: is(0)}, &Elem{Cont: "H.AR", KeyInt: is(3)}, &Elem{Cont: "MK8", KeyInt: is(5)},
 }
 var floatLeaves = []Expr{
-	&Ref{"NF32"}, &Ref{"NF64"}, &Ref{"H.F32"}, &Ref{"H.F64"}, &Ref{"H.In.Z"}, &Ref{"H.In.F3"}, &Ref{"H.Pn.Z"}, &Ref{"V.F64"},
+	&Ref{"NF32"}, &Ref{"NF64"}, &Ref{"H.F32"}, &Ref{"H.F64"}, &Ref{"H.In.Z"}, &Ref{"H.In.F3"}, &Ref{"H.Pn.Z"}, &Ref{"V.F64"}, &Ref{"H.EF"},
 	&Elem{Cont: "MF", KeyStr: ss("a")}, &Elem{Cont: "MF", KeyStr: ss("none")}, &Elem{Cont: "PSF", KeyInt: is(1)},
+	&Ref{"NNaN"}, &Ref{"NPInf"}, &Ref{"NNInf"},
 }
 var strLeaves = []Expr{
-	&Ref{"NS"}, &Ref{"H.S"}, &Ref{"H.In.S"}, &Ref{"H.Pn.S"}, &Ref{"V.S"}, &Elem{Cont: "VSS", KeyInt: is(1)}, &Elem{Cont: "H.MI", KeyInt: is(1)}, &Elem{Cont: "H.MI", KeyInt: is(-5)}, &Elem{Cont: "H.MI", KeyInt: is(77)},
+	&Ref{"NS"}, &Ref{"H.S"}, &Ref{"H.ES"}, &Ref{"H.In.S"}, &Ref{"H.Pn.S"}, &Ref{"V.S"}, &Elem{Cont: "VSS", KeyInt: is(1)}, &Elem{Cont: "H.MI", KeyInt: is(1)}, &Elem{Cont: "H.MI", KeyInt: is(-5)}, &Elem{Cont: "H.MI", KeyInt: is(77)},
 	&Elem{Cont: "PMS", KeyStr: ss("a")}, &Elem{Cont: "PMS", KeyStr: ss("missing")}, &Elem{Cont: "PMS", KeyVar: "NS"}, &Elem{Cont: "H.MI", KeyVar: "NI8"},
 }
 var boolLeaves = []Expr{&Ref{"NB"}, &Ref{"H.B"}, &Ref{"H.In.B"}, &Ref{"H.Pn.B"}, &Ref{"V.B"}}
@@ -219,12 +220,42 @@ func (g *G) nearPair() Expr {
 	return &Bin{Op: cmpOps[g.R.Intn(6)], L: mk(v), R: mk(w)}
 }
 
+// nanPair compares a NaN (injected, or computed from infinities) with a number: a comparison
+// involving a float is made in float64, where NaN is unordered.
+func (g *G) nanPair(d int) Expr {
+	var n Expr
+	switch g.R.Intn(4) {
+	case 0:
+		n = &Bin{Op: "-", L: &Ref{"NPInf"}, R: &Ref{"NPInf"}}
+	case 1:
+		n = &Bin{Op: "+", L: &Ref{"NNInf"}, R: &Bin{Op: "*", L: &Lit{V: 1e308, Text: "1e308"}, R: &Lit{V: 10.0, Text: "10.0"}}}
+	default:
+		n = &Ref{"NNaN"}
+	}
+	var o Expr
+	switch g.R.Intn(4) {
+	case 0:
+		o = &Ref{"NNaN"}
+	case 1:
+		o = g.NumLeaf()
+	default:
+		o = g.Num(d - 1)
+	}
+	if g.R.Intn(2) == 0 {
+		n, o = o, n
+	}
+	return &Bin{Op: cmpOps[g.R.Intn(6)], L: n, R: o}
+}
+
 func (g *G) Bool(d int) Expr {
 	if d <= 0 || g.R.Intn(6) == 0 {
 		return g.BoolLeaf()
 	}
 	if g.R.Intn(6) == 0 {
 		return g.nearPair()
+	}
+	if g.R.Intn(24) == 0 {
+		return g.nanPair(d)
 	}
 	switch g.R.Intn(10) {
 	case 0, 1, 2, 3:
